@@ -131,6 +131,12 @@ func isoCorpus(e *ev.Env) {
 		{"viewbind-then-render-without-engine", isoCase{Cfg: isoCfg{ViewsOn: 2}, History: []wreq{
 			{Kind: "locals", Raw: rawReq(reqSpec{Target: "/locals/alice"})}},
 			Probe: probeWith("/probeplain", ckNone, nil)}},
+		{"failed-render-then-nil-bind-render", isoCase{Cfg: isoCfg{PassLocals: true}, History: []wreq{
+			{Kind: "locals", Raw: rawReq(reqSpec{Target: "/locals/alice?do=renderfail"})}},
+			Probe: probeWith("/probeplain", ckNone, nil)}},
+		{"delete-missing-then-get-missing", isoCase{Cfg: isoCfg{NoMW: true}, History: []wreq{
+			{Kind: "unrouted-DELETE", Raw: rawReq(reqSpec{Method: "DELETE", Target: "/missing"})}},
+			Probe: probeSpec{Route: -1, Class: ckNone, ViaEH: true, Variant: "eh-samepath", Raw: rawReq(reqSpec{Target: "/missing"})}}},
 		{"server-error-path-then-probe", isoCase{History: []wreq{
 			{Kind: "locals", Cookie: ckValid, Raw: rawReq(reqSpec{Target: "/locals/h0", Cookie: one})},
 			{Kind: "malformed", Kills: true, Raw: []byte("GET\r\n\r\n")}},
